@@ -1,19 +1,22 @@
 //@ include-into src/instructions/interrupts.rs
 //
-// C17 (sample): are_enabled / enable / disable / enable_and_hlt /
-// without_interrupts against the abstract machine. RFLAGS of the machine is
-// writable, so both initial IF values are covered by one symbolic state.
+// C17: are_enabled / enable / disable / enable_and_hlt / without_interrupts
+// against the abstract machine. RFLAGS of the machine is writable, so both
+// initial IF values are covered by one symbolic state (the property's
+// `hook_needed`: user-mode pushfq always shows IF = 1; the shim's does not).
+// int3 / software_interrupt are not part of the property.
 
 #[cfg(kani)]
 mod verif_c17_interrupts {
     use super::*;
-    use crate::verif_hw::{self, Kind, RFLAGS_IF};
+    use crate::verif_hw::{self, field, Kind, RFLAGS_IF};
 
     //@ obligation C17 C17.are_enabled.reads_if
     #[kani::proof]
     fn c17_are_enabled_reads_if() {
         verif_hw::reset_symbolic();
-        let fl = verif_hw::m().rflags;
+        let before = *verif_hw::m();
+        let fl = before.rflags;
         kani::cover!(true, "c17_are_enabled_reads_if: reachable");
         kani::cover!(fl & RFLAGS_IF != 0, "c17_are_enabled_reads_if: IF set reachable");
         kani::cover!(fl & RFLAGS_IF == 0, "c17_are_enabled_reads_if: IF clear reachable");
@@ -23,7 +26,10 @@ mod verif_c17_interrupts {
             r == (fl & (1 << 9) != 0),
             "C17.are_enabled.reads_if: result == RFLAGS bit 9"
         );
-        assert!(m.rflags == fl, "C17.are_enabled.reads_if: RFLAGS unchanged");
+        assert!(
+            m.rflags == fl && m.regs_same_except(&before, field::NONE),
+            "C17.are_enabled.reads_if: RFLAGS and every other register unchanged"
+        );
         assert!(
             m.only_event_is(Kind::Pushfq, fl, 0, 0),
             "C17.are_enabled.reads_if: one pushfq, nothing else"
@@ -34,8 +40,11 @@ mod verif_c17_interrupts {
     #[kani::proof]
     fn c17_enable_sets_only_if() {
         verif_hw::reset_symbolic();
-        let fl = verif_hw::m().rflags;
+        let before = *verif_hw::m();
+        let fl = before.rflags;
         kani::cover!(true, "c17_enable_sets_only_if: reachable");
+        kani::cover!(fl & RFLAGS_IF != 0, "c17_enable_sets_only_if: IF initially set");
+        kani::cover!(fl & RFLAGS_IF == 0, "c17_enable_sets_only_if: IF initially clear");
         enable();
         let m = verif_hw::m();
         assert!(
@@ -43,7 +52,11 @@ mod verif_c17_interrupts {
             "C17.enable.sets_only_if: IF set, every other bit unchanged"
         );
         assert!(
-            m.only_event_is(Kind::Sti, 0, 0, 0),
+            m.regs_same_except(&before, field::RFLAGS),
+            "C17.enable.sets_only_if: every other register unchanged"
+        );
+        assert!(
+            m.only_event_is(Kind::Sti, 0, 0, 0) && m.block_seq == 1,
             "C17.enable.sets_only_if: exactly one sti"
         );
     }
@@ -52,8 +65,11 @@ mod verif_c17_interrupts {
     #[kani::proof]
     fn c17_disable_clears_only_if() {
         verif_hw::reset_symbolic();
-        let fl = verif_hw::m().rflags;
+        let before = *verif_hw::m();
+        let fl = before.rflags;
         kani::cover!(true, "c17_disable_clears_only_if: reachable");
+        kani::cover!(fl & RFLAGS_IF != 0, "c17_disable_clears_only_if: IF initially set");
+        kani::cover!(fl & RFLAGS_IF == 0, "c17_disable_clears_only_if: IF initially clear");
         disable();
         let m = verif_hw::m();
         assert!(
@@ -61,7 +77,11 @@ mod verif_c17_interrupts {
             "C17.disable.clears_only_if: IF clear, every other bit unchanged"
         );
         assert!(
-            m.only_event_is(Kind::Cli, 0, 0, 0),
+            m.regs_same_except(&before, field::RFLAGS),
+            "C17.disable.clears_only_if: every other register unchanged"
+        );
+        assert!(
+            m.only_event_is(Kind::Cli, 0, 0, 0) && m.block_seq == 1,
             "C17.disable.clears_only_if: exactly one cli"
         );
     }
@@ -70,7 +90,8 @@ mod verif_c17_interrupts {
     #[kani::proof]
     fn c17_enable_and_hlt_one_block() {
         verif_hw::reset_symbolic();
-        let fl = verif_hw::m().rflags;
+        let before = *verif_hw::m();
+        let fl = before.rflags;
         kani::cover!(true, "c17_enable_and_hlt_one_block: reachable");
         enable_and_hlt();
         let m = verif_hw::m();
@@ -79,7 +100,7 @@ mod verif_c17_interrupts {
             "C17.enable_and_hlt.sti_hlt_one_block: exactly two instructions"
         );
         assert!(
-            m.event(0).kind == Kind::Sti && m.event(1).kind == Kind::Hlt,
+            m.event(0).is(Kind::Sti, 0, 0, 0) && m.event(1).is(Kind::Hlt, 0, 0, 0),
             "C17.enable_and_hlt.sti_hlt_one_block: sti immediately followed by hlt"
         );
         assert!(
@@ -87,31 +108,55 @@ mod verif_c17_interrupts {
             "C17.enable_and_hlt.sti_hlt_one_block: both in the same single asm block"
         );
         assert!(
-            m.rflags == fl | (1 << 9),
-            "C17.enable_and_hlt.sti_hlt_one_block: IF set, other flags unchanged"
+            m.rflags == fl | (1 << 9) && m.regs_same_except(&before, field::RFLAGS),
+            "C17.enable_and_hlt.sti_hlt_one_block: IF set, other flags and registers unchanged"
         );
     }
 
-    /// The induction step of DESIGN.md C17: f is an arbitrary effect on the
-    /// flags that leaves IF as it found it, with a symbolic result.
+    /// The INDUCTION STEP of DESIGN.md C17.
+    ///
+    /// Hypothesis on the closure f (the property's quantifier: "closures that
+    /// themselves leave the flag as they found it"): whatever IF value f
+    /// finds, it leaves IF at that value; otherwise f is arbitrary: here it
+    /// replaces every other RFLAGS bit and another register (CR2 stands for
+    /// "any other state") by symbolic values and returns a symbolic result.
+    ///
+    /// Conclusion about g = || without_interrupts(f), for BOTH initial IF
+    /// values: f runs exactly once, with IF clear; g returns f's result; IF
+    /// after g equals IF before g. The last clause is exactly the hypothesis,
+    /// now about g. So g may be used as the closure of another
+    /// without_interrupts call, and by induction on the nesting depth the
+    /// conclusion holds for every depth (and, since the hypothesis is closed
+    /// under sequential composition, for every branching). The harnesses
+    /// below run real nestings to depth 3 as a sanity check of that argument.
     //@ obligation C17 C17.without_interrupts.step
     #[kani::proof]
     fn c17_without_interrupts_step() {
         verif_hw::reset_symbolic();
-        let before = verif_hw::m().rflags;
+        let before_m = *verif_hw::m();
+        let before = before_m.rflags;
+        let was_set = before & RFLAGS_IF != 0;
         let result: u64 = kani::any();
         let other_flags: u64 = kani::any();
+        let other_state: u64 = kani::any();
         kani::cover!(true, "c17_without_interrupts_step: reachable");
-        kani::cover!(before & RFLAGS_IF != 0, "c17_without_interrupts_step: IF initially set");
-        kani::cover!(before & RFLAGS_IF == 0, "c17_without_interrupts_step: IF initially clear");
+        kani::cover!(was_set, "c17_without_interrupts_step: IF initially set");
+        kani::cover!(!was_set, "c17_without_interrupts_step: IF initially clear");
         let mut calls: u8 = 0;
         let mut if_seen_by_f = true;
+        let mut events_before_f: usize = 0;
+        let mut cli_before_f: usize = 0;
+        let mut sti_before_f: usize = 0;
         let r = without_interrupts(|| {
             let m = verif_hw::m();
             calls += 1;
             if_seen_by_f = m.rflags & RFLAGS_IF != 0;
+            events_before_f = m.log_len;
+            cli_before_f = m.count(Kind::Cli);
+            sti_before_f = m.count(Kind::Sti);
             // arbitrary IF-preserving effect
             m.rflags = (other_flags & !RFLAGS_IF) | (m.rflags & RFLAGS_IF);
+            m.cr2 = other_state;
             result
         });
         let m = verif_hw::m();
@@ -127,14 +172,86 @@ mod verif_c17_interrupts {
             "C17.without_interrupts.step: the other flags are as f left them"
         );
         assert!(
+            m.cr2 == other_state && m.regs_same_except(&before_m, field::RFLAGS | field::CR2),
+            "C17.without_interrupts.step: other state is as f left it, everything else unchanged"
+        );
+        assert!(
             !m.log_overflow && !m.unknown_asm_hit,
             "C17.without_interrupts.step: only known instructions, log not overflown"
         );
         assert!(
-            m.count(Kind::Sti) == (before & RFLAGS_IF != 0) as usize
-                && m.count(Kind::Cli) == (before & RFLAGS_IF != 0) as usize
+            m.count(Kind::Sti) == was_set as usize
+                && m.count(Kind::Cli) == was_set as usize
                 && m.count(Kind::Hlt) == 0,
             "C17.without_interrupts.step: cli/sti pair exactly when IF was set"
+        );
+        assert!(
+            m.event(0).is(Kind::Pushfq, before, 0, 0)
+                && cli_before_f == was_set as usize
+                && sti_before_f == 0
+                && events_before_f == 1 + was_set as usize
+                && m.log_len == 1 + 2 * (was_set as usize)
+                && (!was_set || (m.event(1).kind == Kind::Cli && m.event(2).kind == Kind::Sti)),
+            "C17.without_interrupts.step: order is read flags, (cli), f, (sti) and nothing else"
+        );
+    }
+
+    /// The step also covers a closure that runs instructions itself (here: a
+    /// real inner without_interrupts around an arbitrary IF-preserving effect),
+    /// i.e. one unfolding of the induction, checked directly.
+    //@ obligation C17 C17.without_interrupts.nested_depth2 bounded="nesting depth 2"
+    #[kani::proof]
+    fn c17_without_interrupts_nested_depth2() {
+        verif_hw::reset_symbolic();
+        let before_m = *verif_hw::m();
+        let before = before_m.rflags;
+        let was_set = before & RFLAGS_IF != 0;
+        let result: u16 = kani::any();
+        let other_flags: u64 = kani::any();
+        kani::cover!(true, "c17_without_interrupts_nested_depth2: reachable");
+        kani::cover!(was_set, "c17_without_interrupts_nested_depth2: IF initially set");
+        kani::cover!(!was_set, "c17_without_interrupts_nested_depth2: IF initially clear");
+        let mut outer_calls: u8 = 0;
+        let mut outer_if = true;
+        let mut inner_calls: u8 = 0;
+        let mut inner_if = true;
+        let r = without_interrupts(|| {
+            outer_calls += 1;
+            outer_if = verif_hw::m().rflags & RFLAGS_IF != 0;
+            let x = without_interrupts(|| {
+                let m = verif_hw::m();
+                inner_calls += 1;
+                inner_if = m.rflags & RFLAGS_IF != 0;
+                m.rflags = (other_flags & !RFLAGS_IF) | (m.rflags & RFLAGS_IF);
+                result
+            });
+            // still disabled after the inner call returned
+            outer_if = outer_if || verif_hw::m().rflags & RFLAGS_IF != 0;
+            x
+        });
+        let m = verif_hw::m();
+        assert!(
+            outer_calls == 1 && inner_calls == 1,
+            "C17.without_interrupts.nested_depth2: each closure runs exactly once"
+        );
+        assert!(
+            !outer_if && !inner_if,
+            "C17.without_interrupts.nested_depth2: IF is clear in both closures, also after the inner call returned"
+        );
+        assert!(r == result, "C17.without_interrupts.nested_depth2: result returned");
+        assert!(
+            m.rflags == (other_flags & !RFLAGS_IF) | (before & RFLAGS_IF)
+                && m.regs_same_except(&before_m, field::RFLAGS),
+            "C17.without_interrupts.nested_depth2: IF as before, other flags as f left them, nothing else changed"
+        );
+        assert!(
+            m.count(Kind::Cli) == was_set as usize
+                && m.count(Kind::Sti) == was_set as usize
+                && m.count(Kind::Pushfq) == 2
+                && m.log_len == 2 + 2 * (was_set as usize)
+                && !m.log_overflow
+                && !m.unknown_asm_hit,
+            "C17.without_interrupts.nested_depth2: only the outermost level toggles IF"
         );
     }
 
@@ -143,13 +260,21 @@ mod verif_c17_interrupts {
     #[kani::proof]
     fn c17_without_interrupts_nested_depth3() {
         verif_hw::reset_symbolic();
-        let before = verif_hw::m().rflags;
+        let before_m = *verif_hw::m();
+        let before = before_m.rflags;
+        let was_set = before & RFLAGS_IF != 0;
         let result: u32 = kani::any();
         kani::cover!(true, "c17_without_interrupts_nested_depth3: reachable");
+        kani::cover!(was_set, "c17_without_interrupts_nested_depth3: IF initially set");
+        kani::cover!(!was_set, "c17_without_interrupts_nested_depth3: IF initially clear");
         let mut inner_if = true;
         let mut inner_calls: u8 = 0;
+        let mut mid_calls: u8 = 0;
+        let mut outer_calls: u8 = 0;
         let r = without_interrupts(|| {
+            outer_calls += 1;
             without_interrupts(|| {
+                mid_calls += 1;
                 without_interrupts(|| {
                     inner_calls += 1;
                     inner_if = verif_hw::m().rflags & RFLAGS_IF != 0;
@@ -159,17 +284,71 @@ mod verif_c17_interrupts {
         });
         let m = verif_hw::m();
         assert!(
-            inner_calls == 1 && !inner_if,
-            "C17.without_interrupts.nested_depth3: innermost f runs once with IF clear"
+            inner_calls == 1 && mid_calls == 1 && outer_calls == 1 && !inner_if,
+            "C17.without_interrupts.nested_depth3: every closure runs once, the innermost with IF clear"
         );
         assert!(r == result, "C17.without_interrupts.nested_depth3: result returned");
         assert!(
-            m.rflags == before,
-            "C17.without_interrupts.nested_depth3: RFLAGS restored"
+            m.rflags == before && m.regs_same_except(&before_m, field::NONE),
+            "C17.without_interrupts.nested_depth3: RFLAGS restored, nothing else changed"
         );
         assert!(
-            m.count(Kind::Cli) <= 1 && m.count(Kind::Sti) <= 1,
+            m.count(Kind::Cli) == was_set as usize
+                && m.count(Kind::Sti) == was_set as usize
+                && m.count(Kind::Pushfq) == 3
+                && m.log_len == 3 + 2 * (was_set as usize)
+                && !m.log_overflow
+                && !m.unknown_asm_hit,
             "C17.without_interrupts.nested_depth3: only the outermost level toggles IF"
+        );
+    }
+
+    /// Branching: two without_interrupts calls in sequence inside one.
+    //@ obligation C17 C17.without_interrupts.nested_branching2 bounded="depth 2, two inner calls in sequence"
+    #[kani::proof]
+    fn c17_without_interrupts_nested_branching2() {
+        verif_hw::reset_symbolic();
+        let before_m = *verif_hw::m();
+        let before = before_m.rflags;
+        let was_set = before & RFLAGS_IF != 0;
+        let a: u8 = kani::any();
+        let b: u8 = kani::any();
+        kani::cover!(true, "c17_without_interrupts_nested_branching2: reachable");
+        kani::cover!(was_set, "c17_without_interrupts_nested_branching2: IF initially set");
+        kani::cover!(!was_set, "c17_without_interrupts_nested_branching2: IF initially clear");
+        let mut calls: (u8, u8) = (0, 0);
+        let mut any_if_seen = false;
+        let r = without_interrupts(|| {
+            let x = without_interrupts(|| {
+                calls.0 += 1;
+                any_if_seen |= verif_hw::m().rflags & RFLAGS_IF != 0;
+                a
+            });
+            any_if_seen |= verif_hw::m().rflags & RFLAGS_IF != 0;
+            let y = without_interrupts(|| {
+                calls.1 += 1;
+                any_if_seen |= verif_hw::m().rflags & RFLAGS_IF != 0;
+                b
+            });
+            (x, y)
+        });
+        let m = verif_hw::m();
+        assert!(
+            calls == (1, 1) && !any_if_seen,
+            "C17.without_interrupts.nested_branching2: both inner closures run once; IF is clear in them and between them"
+        );
+        assert!(r == (a, b), "C17.without_interrupts.nested_branching2: results returned");
+        assert!(
+            m.rflags == before && m.regs_same_except(&before_m, field::NONE),
+            "C17.without_interrupts.nested_branching2: RFLAGS restored, nothing else changed"
+        );
+        assert!(
+            m.count(Kind::Cli) == was_set as usize
+                && m.count(Kind::Sti) == was_set as usize
+                && m.log_len == 3 + 2 * (was_set as usize)
+                && !m.log_overflow
+                && !m.unknown_asm_hit,
+            "C17.without_interrupts.nested_branching2: only the outermost level toggles IF"
         );
     }
 }
